@@ -33,6 +33,23 @@ func verifDecodeApk(out []byte) ([]apkSegment, bool) {
 		segs = append(segs, apkSegment{raw: rest[:len(rest)-len(r2)], entries: es, complete: complete, tarLen: len(tarBytes)})
 		rest = r2
 	}
+	if !v.Symbolic() {
+		// natively also read the package the way apk-tools does: the tar bytes
+		// of all gzip members as ONE tar stream. Every member of every segment
+		// must be reachable (a stray zero block inside a cut segment is
+		// accepted by a per-segment reader but ends or breaks the stream here).
+		var all []byte
+		n := 0
+		for _, sg := range segs {
+			_, tb, _, _ := models.Decompress(sg.raw)
+			all = append(all, tb...)
+			n += len(sg.entries)
+		}
+		es, _, ok := models.DecodeTar(all)
+		if !ok || len(es) != n {
+			return segs, false
+		}
+	}
 	return segs, true
 }
 
